@@ -169,7 +169,19 @@ def r_C04(root):
     SPEC = {"True": True, "true": True, "False": False, "false": False, "0": False, "1": True}
     inst += len(SPEC)
     if set(spell) != set(SPEC): out.append(Finding("C04", "C04.b", "textx/lang.py", "BOOL", regs["BOOL"], "BOOL spellings %s differ from the documented %s" % (sorted(spell), sorted(SPEC))))
+    def _as_lambda(v):
+        """a processor given as a lambda, or as the name of a function whose body is a single `return <expr>`: (parameter name, expression)"""
+        if isinstance(v, ast.Lambda): return v
+        if isinstance(v, ast.Name):
+            for n in ast.walk(mm):
+                if isinstance(n, ast.FunctionDef) and n.name == v.id and n.args.args:
+                    body = [b for b in n.body if not (isinstance(b, ast.Expr) and isinstance(b.value, ast.Constant))]
+                    if len(body) == 1 and isinstance(body[0], ast.Return) and body[0].value is not None:
+                        return ast.Lambda(args=ast.arguments(posonlyargs=[], args=[ast.arg(arg=n.args.args[-1].arg)], kwonlyargs=[], kw_defaults=[], defaults=[]), body=body[0].value)
+        return v
+    procs = {k: _as_lambda(v) for k, v in procs.items()}
     lam = procs["BOOL"]
+    if not isinstance(lam, ast.Lambda): raise AnalysisError("BOOL converter is neither a lambda nor a single-return function: " + ast.unparse(lam)[:60])
     def ev(e, x):
         if isinstance(e, ast.BoolOp): vs = [ev(v, x) for v in e.values]; return any(vs) if isinstance(e.op, ast.Or) else all(vs)
         if isinstance(e, ast.Compare) and isinstance(e.ops[0], ast.Eq): return sv(e.left, x) == sv(e.comparators[0], x)
@@ -188,6 +200,7 @@ def r_C04(root):
     if regs["BASETYPE"][0] != "NUMBER" or set(regs["BASETYPE"]) != {"NUMBER", "FLOAT", "BOOL", "ID", "STRING"}: out.append(Finding("C04", "C04.c", "textx/lang.py", "BASETYPE", str(regs["BASETYPE"]), "BASETYPE alternatives changed"))
     for k, f in (("INT", "int"), ("FLOAT", "float"), ("STRICTFLOAT", "float")):
         if isinstance(procs[k], ast.Name) and procs[k].id == f: continue          # the builtin itself
+        if not isinstance(procs[k], ast.Lambda): raise AnalysisError("%s converter is neither the builtin, a lambda nor a single-return function" % k)
         b = procs[k].body
         if not (isinstance(b, ast.Call) and getattr(b.func, "id", "") == f and ast.unparse(b.args[0]) == procs[k].args.args[0].arg): out.append(Finding("C04", "C04.c", "textx/metamodel.py", "TextXMetaModel.__init__", ast.unparse(procs[k]), "%s converter is not %s(whole match)" % (k, f)))
     return inst, out
